@@ -28,6 +28,11 @@ func runC02(env *lib.Env, rep *lib.Report) {
 	var cfgs []histCfg
 	for _, seed := range seeds {
 		a := alpha
+		if seed == "t1x8" {
+			// refused statements (row over the limit) between acknowledged ones: whatever they use up or stamp on
+			// the way to being refused must not confuse a later recovery
+			a.FailingInsert = true
+		}
 		if seed == "t1x12+t2x1" {
 			// CREATE TABLE takes row ids and LSNs without writing a log record: after it the header is
 			// ahead of everything the log mentions
